@@ -117,6 +117,9 @@ def write_csv(track, path, cfg, variant):
     """TrackWriter.writeToFile with explicit column ids; the header option (0 / 1) writes no header on this code base.
     (TrackWriter.writeToCsv(track, path, TrackFormat) is unfinished - it reads a non-existent attribute - and is not claimed.)"""
     from tracklib.io.track_writer import TrackWriter
+    if (variant + cfg["e"] + cfg["n"]) % 2 == 0:        # history: the file exists already (an older, longer one): it is replaced
+        with open(path, "w") as f:
+            f.write("9;9;9;9\n" * 7)
     TrackWriter.writeToFile(track, path, cfg["e"], cfg["n"], cfg["u"], cfg["t"], SEP[cfg["sep"]], variant % 2)
 
 
@@ -266,6 +269,9 @@ def replay_network(cases):
                         net.addEdge(ed, Node(e["s"], geom.getFirstObs().position), Node(e["t"], geom.getLastObs().position))
                         expect.append(("e%d" % j, e["s"], e["t"], e["o"], pts))
                     path = os.path.join(tmp, "n%d.csv" % ci)
+                    if (len(nw["edges"]) + nw["h"]) % 2 == 0:        # the file exists already
+                        with open(path, "w") as f:
+                            f.write("old,old,old,0,\"LINESTRING(0 0,1 1)\"\n" * 5)
                     NetworkWriter.writeToCsv(net, path, SEP[nw["sep"]], nw["h"])
                     fmt = NetworkFormat({"pos_edge_id": 0, "pos_source": 1, "pos_target": 2, "pos_direction": 3, "pos_wkt": 4,
                                          "separator": SEP[nw["sep"]], "header": nw["h"], "srid": "ENU"})
